@@ -21,6 +21,8 @@
 package compile
 
 import (
+	"fmt"
+
 	"go.uber.org/thriftrw/ast"
 	"go.uber.org/thriftrw/wire"
 )
@@ -113,6 +115,10 @@ func resolveService(src ast.ServiceReference, scope Scope) (*ServiceSpec, error)
 }
 
 // Link resolves any references made by the given service.
+// maxServiceInheritanceDepth bounds the walk up the chain of parents when
+// looking for inheritance cycles.
+const maxServiceInheritanceDepth = 1 << 16
+
 func (s *ServiceSpec) Link(scope Scope) error {
 	if s.linked() {
 		return nil
@@ -134,6 +140,15 @@ func (s *ServiceSpec) Link(scope Scope) error {
 
 		if err := parent.Link(scope); err != nil {
 			return compileError{Target: s.Name, Reason: err}
+		}
+
+		for p, n := parent, 0; p != nil; p, n = p.Parent, n+1 {
+			if p == s || n > maxServiceInheritanceDepth {
+				return compileError{
+					Target: s.Name,
+					Reason: fmt.Errorf("service %q inherits from itself", s.Name),
+				}
+			}
 		}
 
 		s.Parent = parent
